@@ -86,7 +86,10 @@ class GQR(QR):
         )  # Maximum number of sensors allowed in the constrained region
 
         # Initialize helper variables
-        R = basis_matrix.conj().T.copy()
+        # Work on a floating-point copy: the reflectors are applied in place, which an
+        # integer matrix (the Identity basis keeps the dtype of integer training data)
+        # cannot hold.
+        R = basis_matrix.conj().T.astype(np.result_type(basis_matrix.dtype, np.float32))
         p = np.arange(n_features)
         k = min(n_samples, n_features)
 
